@@ -51,6 +51,7 @@
 EXTENDS Integers, Sequences, FiniteSets, TLC
 
 CONSTANTS Server,            \* 1..N, N >= 2
+          Campaigners,       \* nodes whose Campaign() is explored (Server in the faithful instances; a subset only to guide attack searches)
           MaxTerm, MaxProposals, MaxCrashes, MaxDrops, MaxDups, MaxHeartbeats, MaxLog, MaxNet,
           MaxEnts,           \* 0 = unlimited entries per MsgApp, k > 0 = at most k
           W_CommitAnyTerm,          \* log.go maybeCommit without the term test
@@ -222,7 +223,7 @@ Init ==
 
 (* RawNode.Campaign(): MsgHup -> hup -> campaign(campaignElection) *)
 Campaign(i) ==
-    /\ Up(i) /\ role[i] # "L" /\ term[i] < MaxTerm
+    /\ i \in Campaigners /\ Up(i) /\ role[i] # "L" /\ term[i] < MaxTerm
     /\ LET t == term[i] + 1
            ms == Concat([j \in Server \ {i} |-> <<Msg("Vote", i, j, t, Len(log[i]), LastTerm(log[i]), 0, FALSE, 0, <<>>)>>], Server \ {i})
        IN /\ Update(i, "C", t, i, 0, log[i], commit[i], [NoVotes EXCEPT ![i] = "y"], NoPr, FALSE)
